@@ -69,6 +69,10 @@ def check(rep, tier, seed):
         elif k % 17 == 1 and len(proj[1]) > 1:
             proj = (proj[0], proj[1][:-1])                     # one entry fewer than there are populations
         p = rng.choice([0, 3, 6, 6, 9])
+        if k % 5 == 2 and len(sm) < len(cols):
+            # columns that are not selected may hold anything (haploid, triploid, odd): they are no part of the result
+            listed = {n_ for n_, _ in sm}
+            recs = [[g if c in listed else rng.choice(["0", "1", "0/1/1", ".", "./.", "0/2", "1|2|3"]) for c, g in zip(cols, r)] for r in recs]
         jobs.append((["create", "--precision", str(p)] + cli_samples_arg(sm) + cli_project_arg(proj), render_vcf(cols, recs)))
         mcases.append("create 0 %s %s %s %s" % (",".join(cols), model_samples(sm), model_project(proj), model_records(recs)))
         precs.append((p, len(recs)))
